@@ -766,6 +766,10 @@ class _Simu(_IObserver, _params.Updatable, ABC):
             Folder.os.makedirs(value, exist_ok=True)
         self.__folder = value
 
+    def __Get_folderSaved(self) -> str:
+        """Folder the meshes stored as paths are relative to (the folder of the last `Save`)."""
+        return getattr(self, "_Simu__folderSaved", self.folder)
+
     @property
     def Niter(self) -> int:
         """Number of iterations"""
@@ -929,7 +933,7 @@ class _Simu(_IObserver, _params.Updatable, ABC):
         list_mesh: list[Mesh] = []
         for mesh in self.__listMesh:
             if isinstance(mesh, str):
-                mesh = Load_Mesh(Folder.Join(self.folder, mesh))
+                mesh = Load_Mesh(Folder.Join(self.__Get_folderSaved(), mesh))
             list_mesh.append(mesh._Gather())
 
         if MPI_RANK == 0:
@@ -961,7 +965,7 @@ class _Simu(_IObserver, _params.Updatable, ABC):
         mesh = self.__listMesh[index]
 
         if isinstance(mesh, str):
-            mesh = Load_Mesh(Folder.Join(self.folder, mesh))
+            mesh = Load_Mesh(Folder.Join(self.__Get_folderSaved(), mesh))
 
         self.__mesh = mesh
         mesh._Add_observer(self)
@@ -3213,10 +3217,12 @@ class _Simu(_IObserver, _params.Updatable, ABC):
         list_mesh = []
         for i, mesh in enumerate(self.__listMesh):
             if isinstance(mesh, str):
-                mesh = Load_Mesh(Folder.Join(folder, mesh))
+                mesh = Load_Mesh(Folder.Join(self.__Get_folderSaved(), mesh))
             path = mesh.Save(folder_meshes, f"mesh{i}")
             list_mesh.append(Folder.os.path.relpath(path, folder))
         self.__listMesh = list_mesh
+        # the stored mesh paths are relative to this folder, whatever `self.folder` becomes afterwards
+        self.__folderSaved = folder
 
         # Save simulation
         with open(path_simu, "wb") as file:
